@@ -777,6 +777,32 @@ theorem buildGraph_inv (mt : Metric) (st : Store S) (m efc : Nat)
     (by simpa [presentIds] using h)
   simpa [presentIds] using this
 
+theorem vecAt_cons_succ (x : Option (List S)) (rest : Store S) (i : Nat) :
+    vecAt (x :: rest) (i + 1) = vecAt rest i := by
+  simp [vecAt]
+
+/-- `VectorStore::present` counts the documents that have a vector -/
+theorem present_eq (st : Store S) : present st = (presentIds st).length := by
+  induction st with
+  | nil => rfl
+  | cons x rest ih =>
+    have hr : presentIds (x :: rest) =
+        (if (vecAt (x :: rest) 0).isSome then [0] else []) ++ (presentIds rest).map (· + 1) := by
+      unfold presentIds
+      simp only [List.length_cons, List.range_succ_eq_map, List.filter_cons, List.filter_map]
+      have : ((fun i => (vecAt (x :: rest) i).isSome) ∘ Nat.succ) = fun i => (vecAt rest i).isSome := by
+        funext i
+        simp [vecAt_cons_succ]
+      rw [this]
+      split <;> simp
+    rw [hr]
+    unfold present at ih ⊢
+    simp only [List.filter_cons, List.length_append, List.length_map]
+    rw [← ih]
+    cases x with
+    | none => simp [vecAt]
+    | some v => simp [vecAt]; omega
+
 /-! ## candidates of a clause -/
 
 variable {κ : Type} [DecidableEq κ]
